@@ -2655,7 +2655,8 @@ struct Engine
                         out.push_back(mk(O_RAR, 0, i, j, 0));
                         out.push_back(mk(O_RAR, 0, i, j, 1));
                     }
-                    if (i != j) out.push_back(mk(O_RAR, 0, i, j, 2));
+                    // (a moved-from std::string is valid but unspecified: no model for it, the move forms are left out)
+                    if (i != j && !LS::HAS_ADDRESS_BYTES) out.push_back(mk(O_RAR, 0, i, j, 2));
                 }
 #endif
 #if HAVE_REF_SWAP
@@ -2705,6 +2706,7 @@ struct Engine
                         for (int form = 0; form < 4; ++form)
                         {
                             if (form != 2 && !COPYABLE) continue;
+                            if (form == 2 && LS::HAS_ADDRESS_BYTES) continue;
                             out.push_back(mk(O_XR, e, 0, i, form, -1));
                             out.push_back(mk(O_XR, e, 0, i, form, prm.arena1));
                         }
@@ -2764,12 +2766,13 @@ struct Engine
                     for (int form = 0; form < 4; ++form)
                     {
                         if (form != 2 && !COPYABLE) continue;
+                        if (form == 2 && LS::HAS_ADDRESS_BYTES) continue;
                         out.push_back(mk(O_XAR, e, 0, i, form));
                     }
 #endif
 #if HAVE_REF_ASSIGN_ELEM
                     if (COPYABLE) out.push_back(mk(O_RAX, 0, i, e, 0));
-                    out.push_back(mk(O_RAX, 0, i, e, 1));
+                    if (!LS::HAS_ADDRESS_BYTES) out.push_back(mk(O_RAX, 0, i, e, 1));
 #endif
                 }
             }
